@@ -46,6 +46,9 @@ def sites(text, ops):
             if re.match(r"\s*p_eval,\s*$", line_txt) or line_txt.strip().startswith("//") or "p_eval:" in line_txt:
                 continue
             out.append((m.start(), m.end(), "0", "eval0"))
+    if "nodelta" in ops:  # a `^ delta` / `^ delta.0` term dropped
+        for m in re.finditer(r" \^ delta(\.0)?(?![\w])", text):
+            out.append((m.start(), m.end(), "", "nodelta"))
     if "cmp" in ops:      # off-by-one in a comparison that guards a flush / bound
         for m in re.finditer(r" >= ", text):
             out.append((m.start(), m.end(), " > ", "cmp"))
